@@ -16,6 +16,7 @@ typedef struct ctx {
 } ctx_t;
 
 void emit(int id);
+extern int pt_last_res; /* receives the result of a PT_CALL whose thread argument is an assignment */
 ctx_t *child_ctx(ctx_t *x, int i);
 static inline int poll(ctx_t *x, int k, int t)
 {
